@@ -37,6 +37,7 @@ func runC09(c *Ctx) {
 	c.shared("R16", "C16/R3", "scalars are copied on insertion into containers: pluck stores a cell of its own per key (a copy of the member's value, or null), never the source object's cell", keyHas("pluck"), runC16)
 	c.shared("R18", "C04/R15", "an assignment over a null of the input changes that one place: every null of a decoded document has a cell of its own (one shared cell for all decoded nulls changes them all, in this document and in the ones read later)", keyHas("value-construction"), func(s *Ctx) { newValueTable(s, "R15") })
 	c.shared("R19", "C08/R1", "an assignment reaches the variable the program names: every frame pushed for a match arm is popped however the arm is left — a frame left behind by next / break / return keeps its bindings (cells of an earlier record) in front of the variables of the same name", keyHas("balance "), func(s *Ctx) { c08R1(s, discoverFrameModel(s.P)) })
+	c.shared("R20", "C17/R2", "an index assignment addresses the member its key names: a number used as a key becomes text through FormatFloat(x, 'f', -1, 64) only — an integer fast path maps every key beyond 2^63 to one text, and two members collapse into one", ruleIs("R2"), runC17)
 	c.shared("R14", "C14/R4", "an assignment through `$` changes the root it was made through only: every selector's root is the result of evaluating that selector on a conversion of the input value made for it (not on a tree another selector's rules have already assigned into)", keyHas("root-list-contents"), func(s *Ctx) { rootsPerValue(s, "R4") })
 	c.shared("R12", "C10/R6", "an index assignment changes exactly the addressed location: every evaluation of a literal builds cells of its own — nothing evaluated earlier is remembered in the evaluator or in the syntax tree and handed out again", keyHas("evaluator-state", "syntax-tree-store", "interpreter-state"), func(s *Ctx) { interpreterState(s, "R6") })
 	c.shared("R11", "C08/R4", "assigning to a parameter changes the callee's own cell only: every declared parameter — supplied or not — is bound to a fresh cell in the callee's frame, so the name cannot resolve to a variable of a calling frame", nil, c08R4)
